@@ -549,4 +549,71 @@ theorem runS_noEof {α : Type} (fin : RErr) (p : Prog α) (hp : noEof p) : ∀ s
           subst e1; exact e2
       exact ih hd (hp hd hl) s1
 
+
+/-! ### the final error together with the LAST piece is the final error alone -/
+
+/-- the script with the error of its last event removed when that error is `fin` itself -/
+def normLast (fin : RErr) : List Ev → List Ev
+  | [] => []
+  | [ev] => [⟨ev.data, if ev.err = some fin then none else ev.err⟩]
+  | ev :: e2 :: r => ev :: normLast fin (e2 :: r)
+
+theorem dataOf_normLast (fin : RErr) : ∀ s, dataOf (normLast fin s) = dataOf s
+  | [] => rfl
+  | [ev] => rfl
+  | ev :: e2 :: r => by simp only [normLast, dataOf, dataOf_normLast fin (e2 :: r)]
+
+def mapRest {α : Type} (fin : RErr) (x : α × List Ev) : α × List Ev := (x.1, normLast fin x.2)
+
+theorem readFull_normLast (fin : RErr) : ∀ (s : List Ev) (need : Nat) (acc : Bytes),
+    readFull fin need acc (normLast fin s) = (readFull fin need acc s).map (mapRest fin) := by
+  intro s
+  induction s with
+  | nil => intro need acc; simp [normLast, readFull, Except.map]
+  | cons ev r ih =>
+    intro need acc
+    cases r with
+    | nil =>
+      simp only [normLast, readFull]
+      split
+      · simp [Except.map, mapRest, normLast]
+      · split
+        · simp [Except.map, mapRest, normLast]
+        · cases hE : ev.err with
+          | none => simp [readFull, Except.map]
+          | some e =>
+            by_cases he : e = fin
+            · subst he; simp [readFull, Except.map]
+            · simp [he, Except.map]
+    | cons e2 r =>
+      simp only [normLast, readFull]
+      split
+      · simp [Except.map, mapRest, normLast]
+      · split
+        · simp [Except.map, mapRest]
+        · cases hE : ev.err with
+          | none => simp only; exact ih _ _
+          | some e => simp [Except.map]
+
+theorem reqS_normLast (fin : RErr) (k : Nat) (s : List Ev) :
+    reqS fin k (normLast fin s) = (reqS fin k s).map (mapRest fin) := by
+  unfold reqS
+  split
+  · simp [Except.map, mapRest]
+  · exact readFull_normLast fin s k []
+
+theorem runS_normLast {α : Type} (fin : RErr) (p : Prog α) : ∀ s,
+    (runS fin p (normLast fin s)).res = (runS fin p s).res.map (mapRest fin) ∧
+    (runS fin p (normLast fin s)).cost = (runS fin p s).cost := by
+  induction p with
+  | ret a => intro s; exact ⟨rfl, rfl⟩
+  | fail e => intro s; exact ⟨rfl, rfl⟩
+  | alloc n c ih => intro s; exact ⟨(ih s).1, by simp only [runS, (ih s).2]⟩
+  | req k cont ih =>
+    intro s
+    simp only [runS, reqS_normLast]
+    cases hq : reqS fin k s with
+    | error e => exact ⟨rfl, rfl⟩
+    | ok r => obtain ⟨hd, s1⟩ := r; simp only [Except.map, mapRest]; exact ih hd s1
+
 end GeomV.C07
